@@ -564,7 +564,24 @@ def run(ctx, repo, tier):
                         cond_calls.append(p_)
                     p_ = getattr(p_, "_parent", None)
     conts = [b for lp in tau_loops for b in ast.walk(lp) if isinstance(b, ast.Continue)]
-    if not tau_loops:
+    # comprehension form: (self.get_one_tau_transition_matrix(t, ..) for t in taus) consumed by a loop / np.array / list
+    comps_ = [c_ for c_ in ast.walk(fa.node) if isinstance(c_, (ast.GeneratorExp, ast.ListComp)) and
+              any(isinstance(x_, ast.Call) and isinstance(x_.func, ast.Attribute) and x_.func.attr == "get_one_tau_transition_matrix" for x_ in ast.walk(c_.elt))]
+    if not tau_loops and comps_:
+        filt_ = [g_ for c_ in comps_ for g_ in c_.generators if g_.ifs]
+        names_ = {a_.targets[0].id for a_ in ast.walk(fa.node) if isinstance(a_, ast.Assign) and len(a_.targets) == 1 and
+                  isinstance(a_.targets[0], ast.Name) and a_.value in comps_}
+        consumers_ = [lp for lp in ast.walk(fa.node) if isinstance(lp, ast.For) and
+                      any((isinstance(x_, ast.Name) and x_.id in names_) or x_ in comps_ for x_ in ast.walk(lp.iter))]
+        jumps_ = [b for lp in consumers_ for b in ast.walk(lp) if isinstance(b, (ast.Break, ast.Return, ast.Continue))]
+        sliced_ = [x_ for x_ in ast.walk(fa.node) if isinstance(x_, ast.Call) and ast.unparse(x_.func).split(".")[-1] in ("islice", "takewhile", "dropwhile", "filter")]
+        if filt_ or jumps_ or sliced_:
+            ctx.inconclusive("DOM", "C12.all_taus.every", "a lag time can be skipped under a condition", fa.where,
+                             witness=ast.unparse((filt_[0].ifs[0] if filt_ else (jumps_ + sliced_)[0]))[:100])
+        else:
+            ctx.ok("DOM", "C12.all_taus.every", "every lag time of the input array gets its transition matrix (unfiltered comprehension over the "
+                   "lag times, consumed completely)", fa.where)
+    elif not tau_loops:
         ctx.inconclusive("DOM", "C12.all_taus.every", "loop over the lag times not recognised", fa.where)
     elif brk:
         ctx.violate("DOM", "C12.all_taus.every", "the loop over the lag times can stop early: the taus after the one that triggers the exit never get "
